@@ -68,7 +68,8 @@ ObjWord(f, w) == IF IsCallAt(f, w) THEN 201326592                               
                  ELSE IF w = f.size - 1 /\ f.tail # 0 THEN f.tail
                  ELSE 604110848 + Fid(f.name) * 16 + w                                    \* 0x24020000
 \* the word the image must hold for word w of f when symbols are at sym[.]
-LinkedWord(f, w, sym) == IF IsCallAt(f, w) THEN 201326592 + sym[CalleeAt(f, w)] \div 4 ELSE ObjWord(f, w)
+\* jal holds bits 27..2 of the target (the upper four bits come from the address of the jal itself)
+LinkedWord(f, w, sym) == IF IsCallAt(f, w) THEN 201326592 + ((sym[CalleeAt(f, w)] \div 4) % 67108864) ELSE ObjWord(f, w)
 Bytes(w) == <<w % 256, (w \div 256) % 256, (w \div 65536) % 256, (w \div 16777216) % 256>>      \* little endian
 
 ProgEnd(base, refs) == base + 8 * Len(refs) + 8
